@@ -733,3 +733,68 @@ def rule_quick_return(mod, rep, floor=8):
             rep.check(not bad, "QUICK-RET", "%s#untouched-%s" % (f.name, outp), "every write-free return lies behind beta == 1, a zero dimension or the error handler",
                       "the return at %s is reachable without any write to %s on a path that tests neither beta for equality nor a dimension for zero: %s := beta*%s is skipped "
                       "(e.g. alpha == 0 with beta != 1)" % (bad[0].loc if bad else "", outp, outp, outp), bad[0].loc if bad else f.file, f.name)
+
+
+# ---------------------------------------------------------------------------------------------------------------------------------
+# P-COLUMN (C02 C08): every magnitude the pivot policy looks at is an entry of the current column
+# ---------------------------------------------------------------------------------------------------------------------------------
+def _vsig(f, o, depth=0):
+    """index-sensitive structural signature of an integer value (loads are named by their array AND the signature of their index)"""
+    o = strip_casts(f, o)
+    if o[0] == "c":
+        return ("c", o[1])
+    if o[0] == "a":
+        return ("a", o[1])
+    if o[0] != "v" or depth > 8:
+        return tuple(o[:2])
+    x = f.inst[o[1]]
+    if x.op in ("add", "sub", "mul"):
+        a, b = _vsig(f, x.ops[0], depth + 1), _vsig(f, x.ops[1], depth + 1)
+        if x.op != "sub" and repr(b) < repr(a):
+            a, b = b, a
+        return (x.op, a, b)
+    if x.op == "load":
+        gi = gep_index(f, x.ops[0])
+        return ("ld", tuple(sorted(fmt_path(p) for p in f.addr_paths(x))), _vsig(f, gi, depth + 1) if gi is not None else None)
+    return ("v", x.i)
+
+
+def rule_pivot_column(mod, rep):
+    from .pivot import _absval_of
+    rep.rule("P-COLUMN", "p?gstrf_pivotL: every |x| that is compared (column maximum, threshold test of the diagonal, threshold test of the recorded row under usepr) is an element "
+             "of one and the same column of the supernode: the element addresses have the same base - the same SSA pointer, or the same array with the same offset polynomial "
+             "(lusup + xlusup[jcol]); a magnitude taken from the supernode's first column (lusup + xlusup[fsupc]) at the same row position passes or fails the threshold "
+             "for the wrong number", floor=4)
+    for prec, f in fam(mod, "p?gstrf_pivotL"):
+        rep.scope([f.name])
+        P = _Poly(f)
+        sigs = {}
+        for c in f.insts():
+            if c.op != "fcmp":
+                continue
+            for o in c.ops:
+                av = _absval_of(f, o)
+                if not av or av[0] is None:
+                    continue
+                x = av[1]
+                addr = x.ops[0] if x.op == "load" else ["v", x.i]
+                dg = _direct_gep(f, addr)
+                if not dg:
+                    continue
+                base = strip_casts(f, dg[0])
+                sig = ("ssa",) + tuple(base[:2])
+                if base[0] == "v" and f.inst[base[1]].op == "getelementptr":
+                    g2 = _direct_gep(f, base)
+                    if g2:
+                        sig = ("gep", tuple(sorted(fmt_path(p) for p in f.paths(g2[0]))), _vsig(f, g2[1]))
+                sigs.setdefault(sig, []).append(x)
+        if not sigs:
+            rep.brk("ANALYSIS-BROKEN P-COLUMN: no compared magnitude found in %s" % f.name)
+            continue
+        if len(sigs) == 1:
+            rep.ok("P-COLUMN", "%s#magnitudes" % f.name, "%d compared magnitudes, one column base" % sum(len(v) for v in sigs.values()), f.file, f.name)
+        else:
+            major = max(sigs.values(), key=len)
+            odd = [x for v in sigs.values() if v is not major for x in v]
+            rep.fail("P-COLUMN", "%s#magnitudes" % f.name, "the magnitude compared at %s is read relative to a different base than the %d other candidates of the column "
+                     "(another column of the supernode): the pivot policy is applied to the wrong number" % (odd[0].loc, len(major)), odd[0].loc, f.name)
